@@ -11,7 +11,8 @@ UTYPES = "crates/dns-resolver/src/util/types.rs"
 TRUSTED = TRUSTED_COMMON + [
     "Zones::resolve: assumed deterministic function of (zones, name, qtype) (`zones_resolve`); its lookup contract is proved in unit zone_lookup",
     "Zone::soa_rr / get_apex / is_authoritative: uninterpreted functions of the zone",
-    "SharedCache::get: unconstrained on purpose",
+    "SharedCache::get: unconstrained on purpose except for the owner of the records (== the asked name; proved in unit cache)",
+    "Zones::resolve stand-in additionally assumes owners_ok (answer records owned by the query name; proved for Zone::resolve in unit zone_lookup)",
     "Metrics::*: counters only (external_body, touch nothing else)",
     "Context::at_recursion_limit / push_question / pop_question: assumed against an abstract constant limit (Vec::capacity is not modelled by vstd); is_duplicate_question is proved",
     "== / != on QueryType, Question are structural (PartialEqSpec axioms)",
@@ -35,6 +36,8 @@ impl Zones {
                 r is Some ==> *r->Some_0.0 == zones_resolve(*self, *name, qtype)->Some_0.0 && r->Some_0.1 == zones_resolve(*self, *name, qtype)->Some_0.1,
                 // a CNAME result carries the CNAME record of the query name and that record's target (zone_lookup: lemma_cname_result_consistent)
                 r is Some && r->Some_0.1 is CNAME ==> r->Some_0.1->rr.rtype_with_data is CNAME && r->Some_0.1->rr.rtype_with_data->CNAME_cname == r->Some_0.1->cname && r->Some_0.1->rr.name == *name,
+                // answer records are owned by the query name, a referral's records by one delegation point (zone_lookup: Zone::resolve/post:answer_records_owned_by_the_query_name)
+                r is Some ==> owners_ok(r->Some_0.1, *name),
     { unimplemented!() }
 }
 impl Zone {
@@ -46,9 +49,11 @@ impl Zone {
     pub fn is_authoritative(&self) -> (r: bool) ensures r == (zone_soa_rr(*self) is Some) { unimplemented!() }
 }
 impl SharedCache {
-    // NO postcondition: the cache may return anything
+    // the cache may return anything, but only records owned by the asked name (cache: SharedCache::get/post:lookup_returns_records_owned_by_the_asked_name)
     #[verifier::external_body]
-    pub fn get(&self, name: &DomainName, qtype: QueryType) -> (r: Vec<ResourceRecord>) { unimplemented!() }
+    pub fn get(&self, name: &DomainName, qtype: QueryType) -> (r: Vec<ResourceRecord>)
+        ensures all_named(r@, *name),
+    { unimplemented!() }
 }
 impl Metrics {
     #[verifier::external_body] pub fn zoneresult_answer(&mut self, rrs: &[ResourceRecord], zone: &Zone, question: &Question) { unimplemented!() }
@@ -142,12 +147,10 @@ RESOLVE_LOCAL = {
     if question.qtype != QueryType::Wildcard {
         assert(rrs@ == rfc__);
         assert(final_cname is Some ==> ends_at(rfc__, final_cname->Some_0));
+        assert(chain_ok(rfc__, question.name));
+        assert(final_cname is Some ==> chain_k(rfc__, question.name, rfc__.len() as int));
     }
 }"""},
-                {"after": "rrs.append(&mut cname_rrs);", "nth": 3, "at": "before", "proof": "let ghost cr__ = cname_rrs@; let ghost r0__ = rrs@;"},
-                {"after": "rrs.append(&mut cname_rrs);", "nth": 3, "proof": "assert(rrs@ == r0__ + cr__); assert(cr__.len() > 0 ==> rrs@.last() == cr__.last());"},
-                {"after": "rrs_from_cache.append(&mut rrs);", "nth": 1, "at": "before", "proof": "let ghost cr__ = rrs@; let ghost r0__ = rrs_from_cache@;"},
-                {"after": "rrs_from_cache.append(&mut rrs);", "nth": 1, "proof": "assert(rrs_from_cache@ == r0__ + cr__); assert(cr__.len() > 0 ==> rrs_from_cache@.last() == cr__.last());"},
                 ],
     "contract": """    requires old(context).wf(),
     ensures
@@ -175,14 +178,60 @@ RESOLVE_LOCAL = {
         // C10: a partial chain ends with the alias whose target is the question to continue with (nothing is followed twice, nothing skipped)
         question.qtype != QueryType::Wildcard && r is Ok && r->Ok_0 is CNAME ==> ends_at(r->Ok_0->CNAME_rrs@, r->Ok_0->cname_question.name)
             && r->Ok_0->cname_question.qtype == question.qtype, // [C10:continuation_is_the_target_of_the_last_alias]
+        // C10 / C09: what is handed back is the CNAME chain from the question name in order, then records owned by the final target
+        question.qtype != QueryType::Wildcard && r is Ok && !(r->Ok_0 is Delegation) ==> chain_ok(result_rrs(r->Ok_0), question.name), // [C09,C10:chain_in_order_from_the_question_name]
+        question.qtype != QueryType::Wildcard && r is Ok && r->Ok_0 is CNAME ==> chain_k(r->Ok_0->CNAME_rrs@, question.name, r->Ok_0->CNAME_rrs@.len() as int), // [C10:partial_chain_holds_aliases_only]
         // C10: the chain starts with the zone's CNAME record for the question name
         guards_pass(old(context), *question) && zr(old(context), *question) is Some && zr(old(context), *question)->Some_0.1 is CNAME ==>
             r is Ok && result_rrs(r->Ok_0).len() > 0 && result_rrs(r->Ok_0)[0] == zr(old(context), *question)->Some_0.1->rr, // [C10:chain_starts_at_the_question_name]
     decreases ctx_limit(old(context)) - old(context).question_stack@.len(),""",
-    "entry": BU,
+    "entry": BU + " broadcast use group_chain;",
 }
 
 SPEC2 = """
+// C10: the name reached after following the first k records of a chain that starts at q
+pub open spec fn reached(rrs: Seq<ResourceRecord>, q: DomainName, k: int) -> DomainName { if k <= 0 { q } else { rrs[k - 1].rtype_with_data->CNAME_cname } }
+// C10/C09: the first k records are CNAME records in chain order starting at q (each owner is the previous target), all others are owned by the final target
+pub open spec fn chain_k(rrs: Seq<ResourceRecord>, q: DomainName, k: int) -> bool {
+    &&& 0 <= k <= rrs.len()
+    &&& forall|i: int| 0 <= i < k ==> (#[trigger] rrs[i]).rtype_with_data is CNAME && rrs[i].name == reached(rrs, q, i)
+    &&& forall|i: int| k <= i < rrs.len() ==> (#[trigger] rrs[i]).name == reached(rrs, q, k)
+}
+pub open spec fn chain_ok(rrs: Seq<ResourceRecord>, q: DomainName) -> bool { exists|k: int| #[trigger] chain_k(rrs, q, k) }
+pub proof fn lemma_chain_cons(rr: ResourceRecord, b: Seq<ResourceRecord>, q: DomainName, k: int)
+    requires rr.rtype_with_data is CNAME, rr.name == q, chain_k(b, rr.rtype_with_data->CNAME_cname, k)
+    ensures chain_k(seq![rr] + b, q, k + 1), chain_ok(seq![rr] + b, q)
+{
+    let f = seq![rr] + b; let t = rr.rtype_with_data->CNAME_cname;
+    assert forall|i: int| 0 <= i < k + 1 implies (#[trigger] f[i]).rtype_with_data is CNAME && f[i].name == reached(f, q, i) by {
+        if i > 0 { assert(f[i] == b[i - 1]); assert(b[i - 1].name == reached(b, t, i - 1)); if i > 1 { assert(f[i - 1] == b[i - 2]); } }
+    }
+    assert forall|i: int| k + 1 <= i < f.len() implies (#[trigger] f[i]).name == reached(f, q, k + 1) by {
+        assert(f[i] == b[i - 1]); if k > 0 { assert(f[k] == b[k - 1]); }
+    }
+    assert(chain_k(f, q, k + 1));
+}
+// the same facts in a form the solver applies by itself wherever a one-alias list is extended or a chain is asked for
+pub broadcast proof fn lemma_chain_cons_b(a: Seq<ResourceRecord>, b: Seq<ResourceRecord>, k: int)
+    requires a.len() == 1, a[0].rtype_with_data is CNAME, #[trigger] chain_k(b, a[0].rtype_with_data->CNAME_cname, k)
+    ensures chain_k(#[trigger] (a + b), a[0].name, k + 1), chain_ok(a + b, a[0].name)
+{
+    assert(a =~= seq![a[0]]);
+    lemma_chain_cons(a[0], b, a[0].name, k);
+}
+pub broadcast proof fn lemma_chain_intro_single(a: Seq<ResourceRecord>, q: DomainName)
+    requires a.len() == 1, a[0].rtype_with_data is CNAME, a[0].name == q
+    ensures chain_k(a, q, 1), #[trigger] chain_ok(a, q)
+{ assert(chain_k(a, q, 1)); }
+pub broadcast proof fn lemma_chain_intro_named(a: Seq<ResourceRecord>, q: DomainName)
+    requires all_named(a, q)
+    ensures chain_k(a, q, 0), #[trigger] chain_ok(a, q)
+{ assert(chain_k(a, q, 0)); }
+pub broadcast proof fn lemma_concat_last(a: Seq<ResourceRecord>, b: Seq<ResourceRecord>)
+    requires b.len() > 0
+    ensures (#[trigger] (a + b)).last() == b.last()
+{}
+pub broadcast group group_chain { lemma_chain_cons_b, lemma_chain_intro_single, lemma_chain_intro_named, lemma_concat_last }
 pub open spec fn ends_at(rrs: Seq<ResourceRecord>, name: DomainName) -> bool {
     rrs.len() > 0 && rrs.last().rtype_with_data is CNAME && rrs.last().rtype_with_data->CNAME_cname == name
 }
@@ -232,6 +281,8 @@ def build(G):
     G.item(L, "enum", "LocalResolutionResult", drop_derive=("Clone",))
     G.item(C, "struct", "Context")
     G.item(L, "const", "CNAME_QTYPE")
+    G.raw(ALL_NAMED_RS, ("spec", "all_named"))
+    G.raw(OWNERS_OK_RS, ("spec", "owners_ok"))
     G.raw(SPEC_RS, ("spec", "local spec"))
     G.raw(SPEC2, ("spec", "local spec2"))
     specs = {k: dict(v, depub=True) for k, v in SPECS.items()}
@@ -251,6 +302,8 @@ def build(G):
 
 
 CANARIES = [
+    {"name": "cached_chain_put_before_its_alias", "file": LOCAL, "old": "                    Ok(LocalResolutionResult::Partial { mut rrs }) => {\n                        rrs_from_cache.append(&mut rrs);", "new": "                    Ok(LocalResolutionResult::Partial { mut rrs }) => {\n                        rrs.append(&mut rrs_from_cache);\n                        rrs_from_cache = rrs;"},
+    {"name": "zone_alias_dropped_from_partial_chain", "file": LOCAL, "old": "                        tracing::trace!(\"got partial cname answer\");\n                        rrs.append(&mut cname_rrs);\n                        LocalResolutionResult::Partial { rrs }", "new": "                        tracing::trace!(\"got partial cname answer\");\n                        LocalResolutionResult::Partial { rrs: cname_rrs }"},
     {"name": "nonauth_single_record_goes_to_cache", "file": LOCAL, "old": "} else if question.qtype != QueryType::Wildcard && !rrs.is_empty() {", "new": "} else if question.qtype != QueryType::Wildcard && rrs.len() > 1 {"},
     {"name": "forget_pop", "file": LOCAL, "old": "                context.pop_question();\n                return Ok(answer);", "new": "                return Ok(answer);"},
     {"name": "no_recursion_limit", "file": LOCAL, "old": "    if context.at_recursion_limit() {", "new": "    if false && context.at_recursion_limit() {"},
